@@ -1,5 +1,5 @@
 SPECIFICATION Spec
-CONSTANT MaxCalls = 8
+CONSTANT MaxCalls = 7
 CONSTRAINT Bound
 INVARIANT TypeOK
 INVARIANT C17
